@@ -374,6 +374,12 @@ fn base_cases(tier: Tier) -> Vec<Case> {
             push(&mut v, 2, vec![vec![sub, B::Sub(1, 1), B::HoldThrough(0, kind), B::Pub(1, 41), B::DropSub(1), B::Pub(1, 42)]], None);
         }
     }
+    // subscribing again is no second subscription - also when somebody else subscribed in between
+    for again in [B::Sub(0, 1), B::SubCtx(0, 1)] {
+        push(&mut v, 2, vec![vec![B::Sub(0, 1), B::Sub(1, 1), again, B::Pub(1, 41), B::Pub(1, 42)]], if q { Some(3) } else { None });
+        push(&mut v, 3, vec![vec![B::Sub(0, 1), B::Sub(1, 1), B::Sub(2, 1), again, B::Sub(1, 1), B::Pub(1, 41)]], Some(if q { 2 } else { 4 }));
+        push(&mut v, 2, vec![vec![B::SubCtx(0, 1), B::Sub(1, 1), B::RestartSub(0), again, B::Pub(1, 41)]], if q { Some(3) } else { None });
+    }
     // two subscribers, one publisher client: same order at both
     for p in pubs(41) {
         push(&mut v, 2, vec![vec![B::Sub(0, 1), B::Sub(1, 1), p, B::Pub(1, 42)]], None);
